@@ -768,7 +768,6 @@ func runC18(c *Ctx) {
 		c.ok("config-not-rewritten", nu.Pos(), "the parsed URL's host/path and opt.DialAddr are never written in pkg/upstream")
 	}
 
-
 	// ---------------------------------------------------------------- R9
 	c.rule("R9", "what the user configured reaches NewUpstream: forward passes the configured address as the address argument and dial_addr / bootstrap / bootstrap_version into the options, field by field", 4)
 	if nf := c.fn(relForward, "", "NewForward"); nf != nil {
